@@ -33,11 +33,14 @@ def run(tier, replay=None):
         "Rig S observes which transport method is invoked with which endpoint for every operation x configuration (incl. the 255.255.255.255:60000 default, which cannot be exercised on a sealed network)",
         "Rig L observes, at the farm, the transport and endpoint a request arrived on, its source address (bind address; the fixed port when one is configured), that it arrived once, and that decoy endpoints stay silent",
     ]
-    common.model_checks(v, [("MC_Transport", "MC_Transport_t.cfg", {"workers": 8, "heap": "6g"}, "pass")])
+    common.model_checks(v, [("MC_Transport", "MC_Transport_t.cfg", {"workers": 8, "heap": "6g"}, "pass"),
+                            # the directed UDP path is a CONNECTED socket: strangers' datagrams never reach the call
+                            ("MC_Transport", "MC_Transport_udpstrays.cfg", {"workers": 4}, "pass"),
+                            ("MC_Transport", "XF_UnconnectedUDP.cfg", {"workers": 4}, "fail")])
     summ = common.harness_traces("c06", tier, shards=8, env=env)
     common.validate(v, "Trace_Api", "Trace_Api.cfg", summ, key)
     v.coverage["configurations"] = summ["extra"]["configurations"]
-    groups = ["G_mixed_fixed", "G_mixed_eph"]
+    groups = ["G_mixed_fixed", "G_mixed_eph", "G_udp_fixed"]
     n = 30 if tier == "quick" else 300
     transport.run_groups(v, groups, n)
     v.coverage["rule"] = ("Rig S: 32 operations x 270 client configurations ({unconfigured, no address, 0.0.0.0, port 0, valid, alternate port} x {udp,tcp,any,'',TCP} x 3 bind addresses x {broadcast unset, set, set with other port}), two other controllers always configured; "
